@@ -94,6 +94,19 @@ def c09_2(ctx):
         if isinstance(a, ast.Assign) and isinstance(a.targets[0], ast.Name) and "// 8" in ast.unparse(a.value) and "* 5" in ast.unparse(a.value):
             var = a.targets[0].id
     if var is None:
+        # the quantity whose range test guards the return: a name compared with integer constants on a test that can raise
+        cands = {}
+        for n in cfg.tests():
+            t = n.ast
+            if isinstance(t, ast.Compare) and len(t.ops) == 1 and any(cfg.nodes[b].kind == "raise" for b, _ in cfg.succ[n.id]):
+                for a_, b_ in ((t.left, t.comparators[0]), (t.comparators[0], t.left)):
+                    if isinstance(a_, ast.Name) and isinstance(b_, ast.Constant) and isinstance(b_.value, int) and not isinstance(b_.value, bool):
+                        oo = origins(fn, n.id, a_)
+                        if "call:len" in oo or "op:FloorDiv" in oo or "call:divmod" in oo:
+                            cands[a_.id] = cands.get(a_.id, 0) + 1
+        if len(cands) == 1:
+            var = next(iter(cands))
+    if var is None:
         raise AnalysisError("decode_bech32: program length variable not found")
     out += rl.accept_set(ctx, spec, [var], ISet.range(2, 40), targets="returns", prefer=(1, 41), what="witness program length " + var)
     return out
